@@ -42,12 +42,64 @@ Definition chunk_bounds (n cs ov : Z) : option (list chunk) :=
   end.
 
 (* data_chunk(data, chunk, with_overlap) = data[i:j] *)
+(* Python's data[i:j] for arbitrary ints: negative bounds count from the end, then both are clipped *)
+Definition norm_idx (n i : Z) : Z := if i <? 0 then Z.max (i + n) 0 else Z.min i n.
+
+Inductive dc_result (A : Type) :=
+| DcOk (rows : list A)
+| DcValueError            (* "'chunk' should have 2 or 4 elements" *)
+| DcAssertError.          (* assert isinstance(chunk, tuple) *)
+Arguments DcOk {A} rows.
+Arguments DcValueError {A}.
+Arguments DcAssertError {A}.
+
 Section Data.
 Context {A : Type}.
 Definition keep (data : list A) (c : chunk) : list A := slice data (c_ks c) (c_ke c).
 Definition whole (data : list A) (c : chunk) : list A := slice data (c_ss c) (c_se c).
 Definition iv_slice (data : list A) (i : iv) : list A := slice data (lo i) (hi i).
+
+Definition pyslice (data : list A) (i j : Z) : list A :=
+  let n := zlen data in slice data (norm_idx n i) (norm_idx n j).
+
+(* data_chunk(data, chunk, with_overlap): [is_tuple] = isinstance(chunk, tuple), [t] = its elements *)
+Definition data_chunk (data : list A) (is_tuple : bool) (t : list Z) (with_overlap : bool) : dc_result A :=
+  if negb is_tuple then DcAssertError else
+  match t with
+  | [i; j] => DcOk (pyslice data i j)
+  | [a; b; c; d] => if with_overlap then DcOk (pyslice data a b) else DcOk (pyslice data c d)
+  | _ => DcValueError
+  end.
 End Data.
+
+(* the 4-tuple yielded by chunk_bounds *)
+Definition tup (c : chunk) : list Z := [c_ss c; c_se c; c_ks c; c_ke c].
+
+(* what a consumer sees of one chunk: data_chunk(data, t, with_overlap=True) and (..., False) *)
+Record part (A : Type) := mkpart { p_whole : list A; p_kept : list A }.
+Arguments mkpart {A} p_whole p_kept.
+Arguments p_whole {A} p.
+Arguments p_kept {A} p.
+
+Section Parts.
+Context {A : Type}.
+Fixpoint dc_parts (data : list A) (l : list chunk) : option (list (part A)) :=
+  match l with
+  | [] => Some []
+  | c :: r =>
+      match data_chunk data true (tup c) true, data_chunk data true (tup c) false, dc_parts data r with
+      | DcOk w, DcOk k, Some ps => Some (mkpart w k :: ps)
+      | _, _, _ => None
+      end
+  end.
+
+(* for chunk in chunk_bounds(len(data), cs, ov): data_chunk(data, chunk, True), data_chunk(data, chunk) *)
+Definition chunked_data (data : list A) (cs ov : Z) : option (list (part A)) :=
+  match chunk_bounds (zlen data) cs ov with
+  | None => None
+  | Some l => dc_parts data l
+  end.
+End Parts.
 
 (* ---- _get_chunk_bounds ---- *)
 (* range(a, b, step) for step > 0 *)
@@ -122,6 +174,16 @@ Definition excerpts (n k size : Z) : option (list iv) :=
 
 Section Exc.
 Context {A : Type}.
+(* [data_chunk(data, chunk) for chunk in excerpts(...)]: the excerpts are 2-tuples *)
+Fixpoint dc_all (data : list A) (l : list iv) : option (list (list A)) :=
+  match l with
+  | [] => Some []
+  | i :: r => match data_chunk data true [lo i; hi i] false, dc_all data r with
+              | DcOk x, Some xs => Some (x :: xs)
+              | _, _ => None
+              end
+  end.
+
 Definition get_excerpts (data : list A) (k size : Z) : option (list A) :=
   let n := zlen data in
   if n <? k * size then Some data
@@ -130,6 +192,12 @@ Definition get_excerpts (data : list A) (k size : Z) : option (list A) :=
   else match excerpts n k size with
        | None => None
        | Some [] => None                           (* np.concatenate([]) raises *)
-       | Some l => Some (concat (map (iv_slice data) l))
+       | Some l =>
+           match dc_all data l with                (* data_chunk(data, chunk) for chunk in excerpts(...) *)
+           | None => None
+           | Some blocks =>
+               let out := concat blocks in
+               if zlen out <=? k * size then Some out else None   (* assert len(out) <= n_excerpts * excerpt_size *)
+           end
        end.
 End Exc.
